@@ -77,7 +77,7 @@ RObsViol(rs, e) ==
 
 Heights(t2, e) == [h \in HS |-> IF t2[h].hr.live /\ HasObs(e, h) THEN [t2[h] EXCEPT !.oh = ObsOf(e, h).height] ELSE t2[h]]
 
-LoadsViol(e, bound, what) == IF e.dloads > bound THEN {V("C16", what, e.h)} ELSE {}
+LoadsViol(e, bound, what) == IF e.loads > bound THEN {V("C16", what, e.h)} ELSE {}
 
 (* common tail of every action; pact = the property a wrong observation of the acted-on handle belongs to *)
 FinishP(t2, cur2, rts2, names2, v, statf, pact) ==
